@@ -1,14 +1,14 @@
 from run import Family
 
 BOUNDS = {'stack step': 'one line of each kind (begin known / begin unknown / end / text / comment) from every depth 0..254, depth symbolic within each capacity class (capacity 20, 40, 80, 160, and above 160 whatever the growth step of the code itself produces); two registered contexts; handler states symbolic',
-          'files': 'every file of 0..3 lines (quick) / 0..4 (thorough) over {comment, begin one, begin two, begin zz, end, text} after the magic line, through fopen/fgets/fclose stubs',
-          'include': 'a main file of 0..2 lines with one %include at every position, included file of 0..2 lines (main+included <= 2 lines: all; 3: every sixth in quick; 4: a ninth, thorough only)',
+          'files': 'every file of 0..3 lines and a 24th of the 4-line files (quick) / every file of 0..4 lines and an eighth of the 5-line files (thorough) over {comment, begin one, begin two, begin zz, end, text} after the magic line, through fopen/fgets/fclose stubs',
+          'include': 'a main file of 0..2 lines with one %include at every position, included file of 0..2 lines (main+included <= 2 lines: all; 3 lines: an eighth, 4 lines: a 72nd in quick; all in thorough)',
           'outside': 'nested %include (the file-stack step is checked in C11), %preproc, backquotes'}
 RULE = 'C09 shapes: (capacity class, line kind) with symbolic depth; (number of lines, line-kind code) for whole files.'
 ASSUMPTIONS = ['handlers are harness functions that log (context, BEGIN/END/text, state in) and return a fresh symbolic state',
                'value expansion of ordinary lines is the real spifconf_shell_expand (C10 owns its correctness)']
 COMMON = dict(units=['strings.c', 'debug.c', 'file.c', 'str.c', 'obj.c'], stubs=['msgs_stub.c', 'libc_models.c', 'fmt_stub.c', 'env_io.c', 'env_fs.c'],
-              defines=['LIBAST_VERIF_CONFIG_BUFF=64', 'LIBAST_VERIF_PATH_MAX=24'], flags=['--object-bits', '10'],
+              defines=['LIBAST_VERIF_CONFIG_BUFF=64', 'LIBAST_VERIF_PATH_MAX=24'], flags=['--object-bits', '10', '--max-field-sensitivity-array-size', '300'],
               restrict={'handler': ['h1', 'h2', 'parse_null'], 'ptr': ['builtin_get', 'builtin_put', 'builtin_version', 'builtin_appname']},
               unwindset=['spifconf_shell_expand:3'])
 
@@ -18,15 +18,15 @@ def families(tier):
     f = Family('stack_step', 'c09_conf.c', unwind=22, cap=(120, 3) if q else (400, 8), **COMMON)
     # (capacity, lowest depth, highest depth): index < capacity, and idx+1 == capacity triggers the growth
     classes = [(20, 0, 0), (20, 1, 18), (20, 19, 19), (40, 20, 38), (40, 39, 39), (80, 40, 78), (80, 79, 79), (160, 80, 158), (160, 159, 159),
-               (-160, 160, 206), (-160, 207, 253), (-160, 254, 254)]    # negative: the class the code's own growth from a full 160-entry table produces
+               (-160, 160, 175), (-160, 176, 191), (-160, 192, 207), (-160, 208, 223), (-160, 224, 239), (-160, 240, 253), (-160, 254, 254)]    # negative: the class the code's own growth from a full 160-entry table produces
     for cap, lo, hi in classes:
         for kind, kn in enumerate(('begin_known', 'begin_unknown', 'end', 'text', 'comment')):
             f.add('C09/step/%s/cap=%d,depth=%d..%d' % (kn, cap, lo, hi), 'h_step', cap, lo, hi, kind)
     g = Family('files', 'c09_conf.c', unwind=22, cap=(200, 4) if q else (600, 8), **COMMON)
-    for n in range(0, 4 if q else 5):
+    for n in range(0, 5 if q else 6):
         for code in range(6 ** n):
-            if q and n == 3 and code % 6 != 1:
-                continue            # quick: all files of up to 2 lines and every sixth 3-line file (40 s each); all of them in thorough
+            if (q and n == 4 and (code * 40503 + 7) % 65521 % 24 != 0) or (not q and n == 5 and (code * 40503 + 7) % 65521 % 8 != 0):
+                continue            # quick: every file of up to 3 lines and a 24th of the 4-line files; thorough: all of 4, an eighth of 5
             g.add('C09/file/lines=%d,code=%d' % (n, code), 'h_file', n, code)
     h = Family('include', 'c09_conf.c', unwind=22, cap=(200, 4) if q else (600, 8), **COMMON)
     for nmain in range(0, 3):
@@ -35,6 +35,6 @@ def families(tier):
                 for ninc in range(0, 3):
                     for icode in range(6 ** ninc):
                         idx = ((mcode * 7 + pos) * 37 + icode) * 3 + ninc
-                        if nmain + ninc <= 2 or (nmain + ninc == 3 and (not q or idx % 6 == 0)) or (nmain + ninc == 4 and not q and idx % 9 == 0):
+                        if nmain + ninc <= 2 or (nmain + ninc == 3 and (not q or idx % 8 == 0)) or (nmain + ninc == 4 and (not q or idx % 72 == 0)):
                             h.add('C09/include/main=%d:%d,at=%d,inc=%d:%d' % (nmain, mcode, pos, ninc, icode), 'h_include', nmain, mcode, pos, ninc, icode)
     return [f, g, h]
